@@ -14,10 +14,19 @@ Section SpecFacts.
       let v := eval vm_compute in (assoc t owned_arms) in change (assoc t owned_arms) with v end;
     cbv iota; unfold parse_body.
 
+  (* where a value is used as a field of another form, the reader needs the term in a particular shape *)
+  Definition shape (v : value) (t : term) : Prop :=
+    match v with
+    | VAtom a => t = TAtom a
+    | VPid _ _ _ _ => exists p, t = TPid p
+    | _ => True
+    end.
+  Ltac shp := cbn [shape]; first [exact I | reflexivity | (eexists; reflexivity)].
+
   Definition P (v : value) (b : bytes) : Prop :=
     (1 <= length b)%nat /\
     forall f rest, (length b < f)%nat ->
-      exists t, parse cfg f (b ++ rest) = POk t rest /\ denote t = v /\ (forall a, v = VAtom a -> t = TAtom a).
+      exists t, parse cfg f (b ++ rest) = POk t rest /\ denote t = v /\ shape v t.
   Definition Q (vs : list value) (bs : bytes) : Prop :=
     (length vs <= length bs)%nat /\
     forall f k rest, (length bs < f)%nat -> (length vs < k)%nat ->
@@ -33,36 +42,36 @@ Section SpecFacts.
   Proof.
     apply encodes_mutind.
     - (* small int *) intros n Hn. split; [cbn; lia|]. intros f rest Hf. destruct f as [|f]; [cbn in Hf; lia|].
-      cbn [app]. arm. rewrite rd1. eexists. split; [reflexivity|]. split; [reflexivity|discriminate].
+      cbn [app]. arm. rewrite rd1. eexists. split; [reflexivity|]. split; [reflexivity|shp].
     - (* integer *) intros n Hn. split; [cbn; lia|]. intros f rest Hf. destruct f as [|f]; [cbn in Hf; lia|].
-      cbn [app]. arm. rewrite rd_app by exact Hn. eexists. split; [reflexivity|]. split; [reflexivity|discriminate].
+      cbn [app]. arm. rewrite rd_app by exact Hn. eexists. split; [reflexivity|]. split; [reflexivity|shp].
     - (* small big *) intros d sign Hd Hs. split; [cbn; lia|]. intros f rest Hf. destruct f as [|f]; [cbn in Hf; lia|].
-      cbn [app]. arm. rewrite !rd1, takeN_app. eexists. split; [reflexivity|]. split; [reflexivity|discriminate].
+      cbn [app]. arm. rewrite !rd1, takeN_app. eexists. split; [reflexivity|]. split; [reflexivity|shp].
     - (* large big *) intros d sign Hd Hs. split; [cbn; lia|]. intros f rest Hf. destruct f as [|f]; [cbn in Hf; lia|].
       cbn [app]. arm. rewrite <- app_assoc. rewrite rd_app by exact Hd. cbn [app]. rewrite rd1, takeN_app.
-      eexists. split; [reflexivity|]. split; [reflexivity|discriminate].
+      eexists. split; [reflexivity|]. split; [reflexivity|shp].
     - (* float *) intros b Hb. split; [cbn; lia|]. intros f rest Hf. destruct f as [|f]; [cbn in Hf; lia|].
-      cbn [app]. arm. rewrite rd_app by exact Hb. eexists. split; [reflexivity|]. split; [reflexivity|discriminate].
+      cbn [app]. arm. rewrite rd_app by exact Hb. eexists. split; [reflexivity|]. split; [reflexivity|shp].
     - (* atom utf8 *) intros a Hu Hl. split; [cbn; lia|]. intros f rest Hf. destruct f as [|f]; [cbn in Hf; lia|].
       cbn [app]. arm. unfold parse_atom_bytes. rewrite <- app_assoc. rewrite rd_app by (unfold max_atom_size in Hl; cbn; lia).
       replace (max_atom_size <? len a) with false by (symmetry; apply N.ltb_ge; exact Hl).
-      rewrite takeN_app, Hu. eexists. split; [reflexivity|]. split; [reflexivity|]. now intros a' [= ->].
+      rewrite takeN_app, Hu. eexists. split; [reflexivity|]. split; [reflexivity|shp].
     - (* small atom utf8 *) intros a Hu Hl. split; [cbn; lia|]. intros f rest Hf. destruct f as [|f]; [cbn in Hf; lia|].
       cbn [app]. arm. unfold parse_atom_bytes. rewrite rd1.
       replace (max_atom_size <? len a) with false by (symmetry; apply N.ltb_ge; unfold max_atom_size; lia).
-      rewrite takeN_app, Hu. eexists. split; [reflexivity|]. split; [reflexivity|]. now intros a' [= ->].
+      rewrite takeN_app, Hu. eexists. split; [reflexivity|]. split; [reflexivity|shp].
     - (* atom latin1 *) intros a Hl. split; [cbn; lia|]. intros f rest Hf. destruct f as [|f]; [cbn in Hf; lia|].
       cbn [app]. arm. unfold parse_atom_latin1. rewrite <- app_assoc. rewrite rd_app by (unfold max_atom_size in Hl; cbn; lia).
       replace (max_atom_size <? len a) with false by (symmetry; apply N.ltb_ge; exact Hl).
-      rewrite takeN_app. eexists. split; [reflexivity|]. split; [reflexivity|]. now intros a' [= ->].
+      rewrite takeN_app. eexists. split; [reflexivity|]. split; [reflexivity|shp].
     - (* small atom latin1 *) intros a Hl. split; [cbn; lia|]. intros f rest Hf. destruct f as [|f]; [cbn in Hf; lia|].
       cbn [app]. arm. unfold parse_atom_latin1. rewrite rd1.
       replace (max_atom_size <? len a) with false by (symmetry; apply N.ltb_ge; unfold max_atom_size; lia).
-      rewrite takeN_app. eexists. split; [reflexivity|]. split; [reflexivity|]. now intros a' [= ->].
+      rewrite takeN_app. eexists. split; [reflexivity|]. split; [reflexivity|shp].
     - (* binary *) intros b Hl. split; [cbn; lia|]. intros f rest Hf. destruct f as [|f]; [cbn in Hf; lia|].
       cbn [app]. arm. rewrite <- app_assoc. rewrite rd_app by (unfold max_binary_size in Hl; cbn; lia).
       replace (max_binary_size <? len b) with false by (symmetry; apply N.ltb_ge; exact Hl).
-      rewrite takeN_app. eexists. split; [reflexivity|]. split; [reflexivity|discriminate].
+      rewrite takeN_app. eexists. split; [reflexivity|]. split; [reflexivity|shp].
     - (* bit binary *) intros b k Hl Hk1 Hk8 Hb. split; [cbn; lia|]. intros f rest Hf. destruct f as [|f]; [cbn in Hf; lia|].
       cbn [app]. arm. rewrite <- app_assoc. rewrite rd_app by (unfold max_binary_size in Hl; cbn; lia).
       replace (max_binary_size <? len b) with false by (symmetry; apply N.ltb_ge; exact Hl).
@@ -71,12 +80,12 @@ Section SpecFacts.
         by (symmetry; apply orb_false_iff; split; [apply N.eqb_neq; lia|apply N.ltb_ge; lia]).
       assert (Hz : (len b =? 0) && negb (k =? 8) = false).
       { destruct (len b =? 0) eqn:E0; [|reflexivity]. apply N.eqb_eq in E0. assert (b = []) as E1 by (destruct b; [reflexivity|unfold len in E0; cbn in E0; lia]). rewrite (Hb E1). reflexivity. }
-      rewrite Hz, takeN_app. eexists. split; [reflexivity|]. split; [reflexivity|discriminate].
+      rewrite Hz, takeN_app. eexists. split; [reflexivity|]. split; [reflexivity|shp].
     - (* nil *) split; [cbn; lia|]. intros f rest Hf. destruct f as [|f]; [cbn in Hf; lia|].
-      cbn [app]. arm. eexists. split; [reflexivity|]. split; [reflexivity|discriminate].
+      cbn [app]. arm. eexists. split; [reflexivity|]. split; [reflexivity|shp].
     - (* string *) intros s Hl. split; [cbn; lia|]. intros f rest Hf. destruct f as [|f]; [cbn in Hf; lia|].
       cbn [app]. arm. rewrite <- app_assoc. rewrite rd_app by (cbn; lia). rewrite takeN_app.
-      eexists. split; [reflexivity|]. split; [cbn [denote]; now rewrite map_map|]. destruct s; discriminate.
+      eexists. split; [reflexivity|]. split; [cbn [denote]; now rewrite map_map|]. destruct s; exact I.
     - (* list *) intros vs bs tl btl _ [Ql Qs] _ [Pl Pt] Hmax Hside. split; [cbn; lia|]. intros f rest Hf. destruct f as [|f]; [cbn in Hf; lia|].
       cbn [app length] in *. rewrite !app_length, be_length in Hf.
       arm. rewrite <- !app_assoc. rewrite rd_app by (unfold max_list_size in Hmax; cbn; lia).
@@ -88,68 +97,91 @@ Section SpecFacts.
       assert (Hres : (match t with TNil => POk (TList ts) rest | _ => POk (TImproper ts t) rest end)
                      = POk (match t with TNil => TList ts | _ => TImproper ts t end) rest) by (destruct t; reflexivity).
       exists (match t with TNil => TList ts | _ => TImproper ts t end). split; [destruct t; reflexivity|]. split; [exact Hd|].
-      intros a Ha. exfalso. destruct vs as [|v vs]; [|discriminate Ha]. destruct Hside as [Hs|Hs]; [now apply Hs|]. cbn in Ha. congruence.
+      destruct vs as [|v vs]; [|exact I]. destruct Hside as [Hs|Hs]; [now exfalso; apply Hs|]. subst tl. exact I.
     - (* small tuple *) intros vs bs _ [Ql Qs] Hn. split; [cbn; lia|]. intros f rest Hf. destruct f as [|f]; [cbn in Hf; lia|].
       cbn [app length] in *. arm. rewrite rd1.
       replace (max_tuple_size <? len vs) with false by (symmetry; apply N.ltb_ge; unfold max_tuple_size; lia).
       destruct (Qs f (S (length (bs ++ rest))) rest ltac:(lia) ltac:(rewrite app_length; lia)) as (ts & Es & Ds).
-      rewrite Es. eexists. split; [reflexivity|]. split; [cbn [denote]; now rewrite Ds|discriminate].
+      rewrite Es. eexists. split; [reflexivity|]. split; [cbn [denote]; now rewrite Ds|shp].
     - (* large tuple *) intros vs bs _ [Ql Qs] Hn. split; [cbn; lia|]. intros f rest Hf. destruct f as [|f]; [cbn in Hf; lia|].
       cbn [app length] in *. rewrite app_length, be_length in Hf. arm. rewrite <- app_assoc. rewrite rd_app by (unfold max_tuple_size in Hn; cbn; lia).
       replace (max_tuple_size <? len vs) with false by (symmetry; apply N.ltb_ge; exact Hn).
       destruct (Qs f (S (length (bs ++ rest))) rest ltac:(lia) ltac:(rewrite app_length; lia)) as (ts & Es & Ds).
-      rewrite Es. eexists. split; [reflexivity|]. split; [cbn [denote]; now rewrite Ds|discriminate].
+      rewrite Es. eexists. split; [reflexivity|]. split; [cbn [denote]; now rewrite Ds|shp].
     - (* new pid *) intros node bn id ser cr _ [Pl Pa] Hi Hs Hc. split; [cbn; lia|]. intros f rest Hf. destruct f as [|f]; [cbn in Hf; lia|].
       cbn [app length] in *. rewrite !app_length, !be_length in Hf. arm. unfold atom_of. rewrite <- !app_assoc.
-      destruct (Pa f (be 4 id ++ be 4 ser ++ be 4 cr ++ rest) ltac:(lia)) as (t & Et & _ & Ht). rewrite (Ht node eq_refl) in Et. rewrite Et.
+      destruct (Pa f (be 4 id ++ be 4 ser ++ be 4 cr ++ rest) ltac:(lia)) as (t & Et & _ & Ht). cbn [shape] in Ht. rewrite Ht in Et. rewrite Et.
       rewrite rd_app by exact Hi. rewrite rd_app by exact Hs. rewrite rd_app by exact Hc.
-      eexists. split; [reflexivity|]. split; [reflexivity|discriminate].
+      eexists. split; [reflexivity|]. split; [reflexivity|shp].
     - (* legacy pid *) intros node bn id ser cr _ [Pl Pa] Hi Hs Hc. split; [cbn; lia|]. intros f rest Hf. destruct f as [|f]; [cbn in Hf; lia|].
       cbn [app length] in *. rewrite !app_length, !be_length in Hf. arm. unfold atom_of. rewrite <- !app_assoc.
-      destruct (Pa f (be 4 id ++ be 4 ser ++ [cr] ++ rest) ltac:(lia)) as (t & Et & _ & Ht). rewrite (Ht node eq_refl) in Et. rewrite Et.
+      destruct (Pa f (be 4 id ++ be 4 ser ++ [cr] ++ rest) ltac:(lia)) as (t & Et & _ & Ht). cbn [shape] in Ht. rewrite Ht in Et. rewrite Et.
       rewrite rd_app by exact Hi. rewrite rd_app by exact Hs. cbn [app]. rewrite rd1.
-      eexists. split; [reflexivity|]. split; [reflexivity|discriminate].
+      eexists. split; [reflexivity|]. split; [reflexivity|shp].
     - (* v4 port *) intros node bn id cr _ [Pl Pa] Hi Hc. split; [cbn; lia|]. intros f rest Hf. destruct f as [|f]; [cbn in Hf; lia|].
       cbn [app length] in *. rewrite !app_length, !be_length in Hf. arm. unfold atom_of. rewrite <- !app_assoc.
-      destruct (Pa f (be 8 id ++ be 4 cr ++ rest) ltac:(lia)) as (t & Et & _ & Ht). rewrite (Ht node eq_refl) in Et. rewrite Et.
+      destruct (Pa f (be 8 id ++ be 4 cr ++ rest) ltac:(lia)) as (t & Et & _ & Ht). cbn [shape] in Ht. rewrite Ht in Et. rewrite Et.
       rewrite rd_app by exact Hi. rewrite rd_app by exact Hc.
-      eexists. split; [reflexivity|]. split; [reflexivity|discriminate].
+      eexists. split; [reflexivity|]. split; [reflexivity|shp].
     - (* new port *) intros node bn id cr _ [Pl Pa] Hi Hc. split; [cbn; lia|]. intros f rest Hf. destruct f as [|f]; [cbn in Hf; lia|].
       cbn [app length] in *. rewrite !app_length, !be_length in Hf. arm. unfold atom_of. rewrite <- !app_assoc.
-      destruct (Pa f (be 4 id ++ be 4 cr ++ rest) ltac:(lia)) as (t & Et & _ & Ht). rewrite (Ht node eq_refl) in Et. rewrite Et.
+      destruct (Pa f (be 4 id ++ be 4 cr ++ rest) ltac:(lia)) as (t & Et & _ & Ht). cbn [shape] in Ht. rewrite Ht in Et. rewrite Et.
       rewrite rd_app by exact Hi. rewrite rd_app by exact Hc.
-      eexists. split; [reflexivity|]. split; [reflexivity|discriminate].
+      eexists. split; [reflexivity|]. split; [reflexivity|shp].
     - (* legacy port *) intros node bn id cr _ [Pl Pa] Hi Hc. split; [cbn; lia|]. intros f rest Hf. destruct f as [|f]; [cbn in Hf; lia|].
       cbn [app length] in *. rewrite !app_length, !be_length in Hf. arm. unfold atom_of. rewrite <- !app_assoc.
-      destruct (Pa f (be 4 id ++ [cr] ++ rest) ltac:(lia)) as (t & Et & _ & Ht). rewrite (Ht node eq_refl) in Et. rewrite Et.
+      destruct (Pa f (be 4 id ++ [cr] ++ rest) ltac:(lia)) as (t & Et & _ & Ht). cbn [shape] in Ht. rewrite Ht in Et. rewrite Et.
       rewrite rd_app by exact Hi. cbn [app]. rewrite rd1.
-      eexists. split; [reflexivity|]. split; [reflexivity|discriminate].
+      eexists. split; [reflexivity|]. split; [reflexivity|shp].
     - (* newer reference *) intros node bn cr ids _ [Pl Pa] Hc Hn Hall. split; [cbn; lia|]. intros f rest Hf. destruct f as [|f]; [cbn in Hf; lia|].
       cbn [app length] in *. rewrite !app_length, !be_length in Hf. arm. unfold atom_of. rewrite <- !app_assoc.
       rewrite rd_app by (cbn; lia).
-      destruct (Pa f (be 4 cr ++ concat (map (be 4) ids) ++ rest) ltac:(lia)) as (t & Et & _ & Ht). rewrite (Ht node eq_refl) in Et. rewrite Et.
+      destruct (Pa f (be 4 cr ++ concat (map (be 4) ids) ++ rest) ltac:(lia)) as (t & Et & _ & Ht). cbn [shape] in Ht. rewrite Ht in Et. rewrite Et.
       rewrite rd_app by exact Hc.
       rewrite rd_ids_ok; [|exact Hall|pose proof (ids_len ids); rewrite app_length; lia].
-      eexists. split; [reflexivity|]. split; [reflexivity|discriminate].
+      eexists. split; [reflexivity|]. split; [reflexivity|shp].
     - (* new reference *) intros node bn cr ids _ [Pl Pa] Hc Hn Hall. split; [cbn; lia|]. intros f rest Hf. destruct f as [|f]; [cbn in Hf; lia|].
       cbn [app length] in *. rewrite !app_length, !be_length in Hf. cbn [length] in Hf. arm. unfold atom_of. rewrite <- !app_assoc.
       rewrite rd_app by (cbn; lia).
-      destruct (Pa f (cr :: concat (map (be 4) ids) ++ rest) ltac:(lia)) as (t & Et & _ & Ht). rewrite (Ht node eq_refl) in Et.
+      destruct (Pa f (cr :: concat (map (be 4) ids) ++ rest) ltac:(lia)) as (t & Et & _ & Ht). cbn [shape] in Ht. rewrite Ht in Et.
       cbn [app]. rewrite Et. rewrite rd1.
       rewrite rd_ids_ok; [|exact Hall|pose proof (ids_len ids); rewrite app_length; lia].
-      eexists. split; [reflexivity|]. split; [reflexivity|discriminate].
+      eexists. split; [reflexivity|]. split; [reflexivity|shp].
     - (* legacy reference *) intros node bn id cr _ [Pl Pa] Hi Hc. split; [cbn; lia|]. intros f rest Hf. destruct f as [|f]; [cbn in Hf; lia|].
       cbn [app length] in *. rewrite !app_length, !be_length in Hf. arm. unfold atom_of. rewrite <- !app_assoc.
-      destruct (Pa f (be 4 id ++ [cr] ++ rest) ltac:(lia)) as (t & Et & _ & Ht). rewrite (Ht node eq_refl) in Et. rewrite Et.
+      destruct (Pa f (be 4 id ++ [cr] ++ rest) ltac:(lia)) as (t & Et & _ & Ht). cbn [shape] in Ht. rewrite Ht in Et. rewrite Et.
       rewrite rd_app by exact Hi. cbn [app]. rewrite rd1.
-      eexists. split; [reflexivity|]. split; [reflexivity|discriminate].
+      eexists. split; [reflexivity|]. split; [reflexivity|shp].
     - (* export *) intros m bm fn bf a _ [Pl1 Pm] _ [Pl2 Pf] Ha. split; [cbn; lia|]. intros f rest Hf. destruct f as [|f]; [cbn in Hf; lia|].
       cbn [app length] in *. rewrite !app_length in Hf. cbn [length] in Hf. arm. unfold atom_of. rewrite <- !app_assoc.
-      destruct (Pm f (bf ++ [97; a] ++ rest) ltac:(lia)) as (t & Et & _ & Ht). rewrite (Ht m eq_refl) in Et. rewrite Et.
-      destruct (Pf f ([97; a] ++ rest) ltac:(lia)) as (t2 & Et2 & _ & Ht2). rewrite (Ht2 fn eq_refl) in Et2. rewrite Et2.
+      destruct (Pm f (bf ++ [97; a] ++ rest) ltac:(lia)) as (t & Et & _ & Ht). cbn [shape] in Ht. rewrite Ht in Et. rewrite Et.
+      destruct (Pf f ([97; a] ++ rest) ltac:(lia)) as (t2 & Et2 & _ & Ht2). cbn [shape] in Ht2. rewrite Ht2 in Et2. rewrite Et2.
       destruct f as [|f']; [lia|]. cbn [app]. pose proof (p_small_int cfg Harms f' a rest Ha) as Hsi. change tag_small_integer_ext with 97 in Hsi. rewrite Hsi.
       replace ((0 <=? Z.of_N a) && (Z.of_N a <=? 255))%Z with true by (symmetry; apply andb_true_intro; split; apply Z.leb_le; lia).
-      rewrite N2Z.id. eexists. split; [reflexivity|]. split; [reflexivity|discriminate].
+      rewrite N2Z.id. eexists. split; [reflexivity|]. split; [reflexivity|shp].
+    - (* new fun *) intros size ar uniq idx m bm oi boi ou bou node id ser cr bp frees bfr Hsize Har Hu Hidx Hnf _ [Pl1 Pm] Hoi Hou _ [Pl2 Pp] _ [Ql Qs].
+      split; [cbn; lia|]. intros f rest Hf. destruct f as [|f]; [cbn in Hf; lia|].
+      cbn [app length] in *. rewrite !app_length, !be_length in Hf. cbn [length] in Hf. rewrite !app_length, !be_length in Hf.
+      arm. unfold atom_of. rewrite <- !app_assoc. rewrite rd_app by exact Hsize. cbn [app]. rewrite rd1.
+      assert (Hu16 : forall X, takeN 16 (uniq ++ X) = Some (uniq, X)) by (intros X; rewrite <- Hu; apply takeN_app).
+      rewrite <- !app_assoc. rewrite Hu16. rewrite rd_app by exact Hidx. rewrite rd_app by exact Hnf.
+      destruct (Pm f (boi ++ bou ++ bp ++ bfr ++ rest) ltac:(lia)) as (t & Et & _ & Ht). cbn [shape] in Ht. rewrite Ht in Et. rewrite Et.
+      assert (Hint : forall n b X, int_form n b -> (length b < f)%nat ->
+                parse cfg f (b ++ X) = POk (TInt (Z.of_N n)) X).
+      { intros n b X Hn Hb. destruct f as [|f']; [lia|]. destruct Hn as [n Hn|n Hn]; cbn [app].
+        - pose proof (p_small_int cfg Harms f' n X Hn) as H. exact H.
+        - pose proof (p_integer cfg Harms f' n X ltac:(lia)) as H. change tag_integer_ext with 98 in H. rewrite H.
+          unfold to_i32. replace (n <? 2147483648) with true by (symmetry; apply N.ltb_lt; exact Hn). reflexivity. }
+      assert (Lboi : (1 <= length boi)%nat) by (destruct Hoi; cbn; lia).
+      assert (Lbou : (1 <= length bou)%nat) by (destruct Hou; cbn; lia).
+      rewrite (Hint oi boi _ Hoi ltac:(lia)). replace (Z.of_N oi <? 0)%Z with false by (symmetry; apply Z.ltb_ge; lia).
+      rewrite (Hint ou bou _ Hou ltac:(lia)). replace (Z.of_N ou <? 0)%Z with false by (symmetry; apply Z.ltb_ge; lia).
+      destruct (Pp f (bfr ++ rest) ltac:(lia)) as (tp & Etp & Dtp & (p & ->)). rewrite Etp. cbn [denote] in Dtp.
+      destruct (Qs f (S (length (bfr ++ rest))) rest ltac:(lia) ltac:(rewrite app_length; lia)) as (ts & Es & Ds). rewrite Es.
+      eexists. split; [reflexivity|]. split; [|shp].
+      cbn [denote]. rewrite Dtp, Ds, !N2Z.id.
+      assert (Hb : forall n b, int_form n b -> n mod 4294967296 = n) by (intros n b [n' H'|n' H']; apply N.mod_small; lia).
+      now rewrite (Hb _ _ Hoi), (Hb _ _ Hou).
     - (* empty sequence *) split; [apply le_n|]. intros f k rest _ Hk. destruct k as [|k]; [cbn in Hk; lia|]. exists []. split; reflexivity.
     - (* sequence *) intros v b vs bs _ [Pl Pv] _ [Ql Qs]. split; [rewrite app_length; cbn [length]; lia|].
       intros f k rest Hf Hk. rewrite app_length in Hf. cbn [length] in Hk. destruct k as [|k]; [lia|].
